@@ -464,3 +464,6 @@ _app("C20", "; jwt-verify --verbose --print=CMD / -v -p CMD with 1, 2 and 40 (th
 _app("C05", "; every fourth pair each has keys labelled for what they are used for (signer key_ops [sign] / checker [verify]; both [sign,verify]; use sig)")
 _app("C07", "; a ninth entry point: jwks_load_fromfp on a stream positioned after a line the caller has read")
 _app("C12", "; after every switch operation the child runs an HS256 and an ES256 round trip under the provider in force")
+
+# ---------------------------------------------------------------- addition of round 16
+_app("C07", "; documents that do not parse and whose offending token, quoted back in the parser's error text, holds printf conversions (%s, %n, %d, %x)")
